@@ -30,6 +30,7 @@ type Proc struct {
 	Out  *query.Output
 	Err  *query.Output
 	Ctx  context.Context
+	User map[string]interface{} // per-history state of the harness
 }
 
 type Res struct {
@@ -57,7 +58,7 @@ func NewProcCtx(ctx context.Context, dir string, flags map[string]interface{}) (
 	if err != nil {
 		return nil, err
 	}
-	p := &Proc{Dir: dir, Sess: sess, Tx: tx, Proc: query.NewProcessor(tx), Out: out, Err: errw, Ctx: ctx}
+	p := &Proc{Dir: dir, Sess: sess, Tx: tx, Proc: query.NewProcessor(tx), Out: out, Err: errw, Ctx: ctx, User: map[string]interface{}{}}
 	if err := tx.SetFlag("repository", dir); err != nil {
 		return nil, err
 	}
